@@ -28,6 +28,16 @@ func Main(cmd string, args []string) int {
 		return schemaMain(args)
 	case "smoke":
 		return smokeMain(args)
+	case "syssmoke":
+		return sysSmokeMain(args)
+	case "schedsmoke":
+		return schedSmokeMain(args)
+	case "bench":
+		return benchMain(args)
+	case "writesql":
+		return writesqlMain(args)
+	case "storeops":
+		return storeopsMain(args)
 	default:
 		fmt.Fprintf(os.Stderr, "vrsql: unknown command %q\n", cmd)
 		return 2
